@@ -266,6 +266,10 @@ func (vc *VC) contractWrites(ct *Contract, params map[string]types.Type, wk *wri
 			wk.all = true
 			return
 		case "nothing":
+		case "ghost":
+			for _, ab := range vc.eng.db.Abstracts {
+				wk.add("A:" + ab.Name)
+			}
 		case "field", "elems", "fields", "cell":
 			t := vc.eng.staticType(mi.E, params)
 			if t == nil {
@@ -413,6 +417,29 @@ func (vc *VC) evalModifies(ct *Contract, sc *Scope, post *State) (*modSet, error
 			for k := range wk.keys {
 				ms.keyAll[k] = true
 			}
+		case "ghost":
+			v, err := sc.eval(mi.E)
+			if err != nil {
+				return nil, err
+			}
+			r, isRef := v.sym.(sv)
+			if !isRef {
+				return nil, fmt.Errorf("modifies %s: not an object", mi.Src)
+			}
+			iname := namedName(v.typ)
+			for _, ab := range vc.eng.db.Abstracts {
+				if ab.Iface != iname {
+					continue
+				}
+				rt := vc.eng.typeByText(ab.Ret)
+				sort := vc.eng.sortOf(rt)
+				key := "A:" + ab.Name
+				vc.keyOf(key, arraySort(idxSorts(1+len(ab.Params)), sort))
+				if refLike(rt) {
+					vc.markRef(key)
+				}
+				ms.refs[key] = append(ms.refs[key], r.t)
+			}
 		case "cell":
 			v, err := sc.eval(mi.E)
 			if err != nil {
@@ -524,6 +551,9 @@ func (vc *VC) applyHavoc(st *State, ms *modSet) {
 			hv := vc.fresh("hv", vs)
 			if vc.refKeys[k] && vs == "Int" {
 				vc.emit(fmt.Sprintf("(assert (< %s %s))", hv, st.alloc))
+			}
+			if it, ok := vc.keyInt[k]; ok && vs == "Int" {
+				vc.emit(fmt.Sprintf("(assert %s)", rangeFact(it, hv)))
 			}
 			h = fmt.Sprintf("(store %s %s %s)", h, r, hv)
 		}
